@@ -12,7 +12,7 @@ INFO = {
                   'rtamt.semantics.stl.dense_time.online.intersection.intersection',
                   'offline dense-time evaluate() on the whole signal (the property\'s own oracle) and rho_ct'],
     'bounds': {'quick': 'every dense online operator, n=3 samples per signal (2+2 binary), EVERY split into consecutive update() batches (incl. per-variable '
-                        'unaligned splits for binary operators), time-stamps and values symbolic; bounds (0,1)(1,2); depth-2 nestings on n=3; update() calls that bring nothing for a variable (explicit empty batch, or one variable of a binary operand running ahead); wide windows ([0,3],[1,4],[2,3]) over 5 samples on concrete regular and irregular time grids (values symbolic), 3 chunkings',
+                        'unaligned splits for binary operators), time-stamps and values symbolic; bounds (0,1)(1,2); depth-2 nestings on n=3; update() calls that bring nothing for a variable (explicit empty batch, or one variable of a binary operand running ahead); wide windows ([0,3],[1,4],[2,3]) over 5 samples on concrete regular and irregular time grids (values symbolic), 3 chunkings; operands that start at different instants (late-start family: batches in which the operands do not overlap); operations over two constants and repeated constants in several updates',
                'thorough': 'n=4 (3+2, 3+3 binary), all 2^(n-1) chunkings; more bounds; pastified bounded-future specifications'},
     'outside': 'more than 4 samples per variable with symbolic time-stamps (6 on concrete grids); batches that repeat a time-stamp',
     'assumptions': ['time-stamps strictly increasing, first sample at time 0 (free start in thorough)', 'values finite reals',
@@ -258,6 +258,17 @@ def obligations(tier, rng):
             for sc in (lscheds if not quick or f[0] in ('and', 'since') else lscheds[:2]):
                 out.append(ob('C05', 'chunk', 'late%d/%s/%s' % (gi, text(f), _sname(sc)), f=f, ns=[4, 4], sched=sc, oracle='offline', grids=[gx, gy],
                               max_paths=40000, wall=900))
+    # constants: an operation over TWO constants, a constant on either side, the same constant twice - fed in several updates
+    K = lambda v: ('const', v)
+    cc = [('geq', X, ('sub', K(2.0), K(1.0))), ('geq', ('add', X, ('mul', K(2.0), K(3.0))), K(1.0)), ('leq', ('sub', K(2.0), K(1.0)), X),
+          ('and', ('geq', X, K(1.0)), ('geq', K(2.0), K(1.0))), ('and', ('geq', X, K(2.0)), ('leq', Y, K(2.0))), ('once_t', ('geq', X, ('add', K(2.0), K(1.0))), 0, 1),
+          ('or', ('geq', K(1.0), X), ('once', ('gt', X, K(1.0)))), ('since', ('geq', X, K(0.5)), ('geq', K(0.5), X))]
+    for f in cc:
+        two = len(variables(f)) > 1
+        for parts in ([[0, 1], [2, 3]], [[0], [1], [2], [3]], [[0, 1, 2, 3]]):
+            sc = [parts, parts] if two else [parts]
+            out.append(ob('C05', 'chunk', 'const/%s/grid=0,1,2,3/%s' % (text(f), _sname(sc)), f=f, ns=[4, 4] if two else [4], sched=sc, oracle='offline', grid=[0, 1, 2, 3],
+                          max_paths=40000, wall=900))
     # three levels: a bounded past operator over a bounded past operator with a > 0 (what pastify() produces for a bounded-future
     # operator next to a sibling of larger horizon), alone and as the operand of a binary operation, six samples in two or more batches
     H1 = lambda g: ('historically_t', g, 0, 1)
